@@ -39,7 +39,7 @@ def main():
     rc, out = sh("cargo test --offline --lib 2>&1 | grep 'test result'", cwd=wt, env=env)
     ran.append("cargo test --offline --lib (with change): " + out.strip())
     m = re.search(r"(\d+) passed; (\d+) failed", out)
-    tests_ok = bool(m) and m.group(1) == "1229" and m.group(2) == "0"
+    tests_ok = bool(m) and int(m.group(1)) >= 1229 and m.group(2) == "0"
     # demo with change
     loc = meta["demo_location"]
     dst = os.path.join(wt, loc)
